@@ -60,6 +60,105 @@ def pkcs1_v15_unpad(em):
     return em[sep + 1:]
 
 
+def login_histories(run, rng, thorough):
+    """End to end: several logins on ONE Connection object against the
+    independent server (own RSA key, own CFB8); some get through the
+    encryption exchange and then fail.  Every login must use a fresh 16-byte
+    secret, recovered here with the private key, and the encrypted session that
+    follows must work."""
+    from ..probes import client as pc
+    from ..server import mcserver, scripts
+    from ..server.codec import codec_for
+    histories = [('accept', 'accept'), ('reject', 'accept'),
+                 ('drop', 'accept'), ('reject', 'drop', 'accept'),
+                 ('accept', 'reject', 'accept'), ('drop', 'drop', 'accept')]
+    if thorough:
+        histories += [tuple(rng.choice(('accept', 'reject', 'drop'))
+                            for _ in range(rng.randrange(2, 6))) + ('accept',)
+                      for _ in range(30)]
+    for hi, hist in enumerate(histories):
+        if not run.mine(hi):
+            continue
+        pv = rng.choice((757, 404, 340, 47))
+        codec = codec_for(pv)
+        secrets = []
+        alive = []
+
+        def handler(io):
+            step = hist[io.index] if io.index < len(hist) else 'accept'
+            scripts.read_handshake(io)
+            io.recv_frame()
+            obs = scripts.encryption_exchange(
+                io, codec, server_id='-', token=bytes(
+                    rng.getrandbits(8) for _ in range(4)))
+            secrets.append(obs['secret'])
+            if step == 'drop':
+                return
+            if step == 'reject':
+                did, dp = codec.encode('login_disconnect',
+                                       {'reason': '{"text":"no"}'})
+                io.send_frame(did, dp)
+                io.half_close()
+                io.drain(5.0)
+                return
+            scripts.send_login_success(io, pv, codec)
+            kid, kp = codec.encode('cb_keep_alive', {'id': 99})
+            io.send_frame(kid, kp)
+            fr = io.recv_frame(6.0)
+            ok = False
+            if fr is not None:
+                nm, vals = codec.decode('play', fr[0], fr[1])
+                ok = nm == 'sb_keep_alive' and vals['id'] == 99
+            alive.append(ok)
+            did, dp = codec.encode('play_disconnect', {'reason': '"bye"'})
+            io.send_frame(did, dp)
+            io.half_close()
+            io.drain(5.0)
+        server = mcserver.Server(handler)
+        rec = pc.Recorder()
+        conn = None
+        w = {'history': hist, 'pv': pv}
+        try:
+            conn = pc.make_connection(server.port, rec, early_listener=False,
+                                      allowed_versions={pv})
+            bad_wait = False
+            for step in hist:
+                conn.connect()
+                if not pc.wait_idle(conn, 20.0):
+                    bad_wait = True
+                    break
+            server.join(10.0)
+            if bad_wait or [e for e in server.errors if e[1] == 'script']:
+                run.inconclusive_because('login history %r: %r' % (
+                    hist, server.errors[:1]))
+                continue
+            run.case(('login-history', hist, pv))
+            run.count('login_histories')
+            run.count('secrets_recovered_by_key_holder', len(secrets))
+            frame_errs = [e for e in server.errors if e[1] == 'frame']
+            if frame_errs:
+                run.violation('e2e/unreadable', 'client bytes of an encrypted '
+                              'login do not parse/decrypt at the key holder',
+                              dict(w, error=frame_errs[0][2]))
+            if len(secrets) != len(hist) or any(len(x) != 16
+                                                for x in secrets):
+                run.violation('e2e/secret-length', 'a login did not hand over '
+                              'a 16-byte secret', dict(
+                                  w, lengths=[len(x) for x in secrets]))
+            elif len(set(secrets)) != len(secrets):
+                run.violation('e2e/secret-reused', 'two logins of the same '
+                              'Connection object used the same shared secret',
+                              dict(w, secrets=[x.hex() for x in secrets]))
+            if alive != [True] * hist.count('accept'):
+                run.violation('e2e/session-broken', 'an accepted encrypted '
+                              'login did not yield a working session',
+                              dict(w, alive=alive))
+        finally:
+            server.stop()
+            if conn is not None:
+                pc.safe_disconnect(conn)
+
+
 def run(run):
     from minecraft.networking import encryption
     from cryptography.hazmat.primitives.asymmetric import rsa
@@ -72,8 +171,10 @@ def run(run):
                 'with the two directions interleaved; 1000 generated secrets '
                 '(length, pairwise distinct); RSA hand-over for token lengths '
                 '1..64 under 1024- and 2048-bit keys decided by raw RSA + own '
-                'PKCS#1 v1.5 unpadding. Distinct = (secret, stream, '
-                'partition).')
+                'PKCS#1 v1.5 unpadding; end to end: histories of accepted / '
+                'rejected / dropped encrypted logins on one Connection object '
+                '(fresh secret per login, working session). Distinct = '
+                '(secret, stream, partition) / the history.')
     run.assumptions = ['vf.ref.cfb8 validated by NIST SP 800-38A F.3.7 and '
                        'FIPS-197 vectors in setup', 'randomness quality of '
                        'os.urandom is not observable; only length and '
@@ -224,6 +325,8 @@ def run(run):
                                       'bits': bits, 'token_len': L,
                                       'em_prefix': em[:4], 'recovered': m,
                                       'expected': exp})
+    login_histories(run, rng, thorough)
+    run.require('login_histories', 3)
     run.require('bytes_encrypted', 1000)
     run.require('bytes_decrypted', 1000)
     run.require('rsa_handovers', 2)
